@@ -57,6 +57,7 @@ type Contract struct {
 	Keeps      []string // ghost prefixes opaque callees of this function are assumed not to touch
 	ModAll     bool     // modifies everything: no frame obligation; callers havoc argument referents and all ghosts
 	MayExit    bool     // reaching os.Exit / log.Fatal is accepted (start-up and configuration code)
+	UnderRecover []string // regexps: calls of these callees made directly by the function must follow the defer of a recovering closure
 	Scope      string   // extern/iface contract valid only for callers in this package (relative path)
 	Unguarded  bool     // constructor: the object is not shared yet, guarded fields may be written without the lock
 }
@@ -106,7 +107,7 @@ type GuardDecl struct {
 
 var closureNameRe = regexp.MustCompile(`^(.*)__([0-9]+)$`)
 
-var kwRe = regexp.MustCompile(`^(requires|ensures|modifies|panics|may_panic|may_exit|unguarded|scope|keeps|define|panics_keep|panics_declared|loop|mode|extern|assumed|pure|props|noinline|uses|iface|hint|trigger|dead|same_as|instance)\b`)
+var kwRe = regexp.MustCompile(`^(requires|ensures|modifies|panics|may_panic|may_exit|under_recover|unguarded|scope|keeps|define|panics_keep|panics_declared|loop|mode|extern|assumed|pure|props|noinline|uses|iface|hint|trigger|dead|same_as|instance)\b`)
 
 // parseContractFile reads //@ lines. pkgPath is the import path the file belongs to
 // (can be overridden by a `//@ package <path>` line for extern contract files).
@@ -259,6 +260,14 @@ func parseContractFile(path, pkgPath string) (*ContractFile, error) {
 		switch kw {
 		case "may_exit":
 			cur.MayExit = true
+			last = nil
+		case "under_recover":
+			// under_recover <regexp>: every direct call of a callee matching it must be preceded, on every path, by
+			// the defer of a closure that calls recover() - a panic in that callee is then turned into a result
+			if _, err := regexp.Compile(rest); err != nil || rest == "" {
+				return nil, fmt.Errorf("%s:%d: under_recover needs a regular expression: %s", path, ln+1, text)
+			}
+			cur.UnderRecover = append(cur.UnderRecover, rest)
 			last = nil
 		case "may_panic":
 			cur.MayPanic = true
